@@ -112,7 +112,9 @@ class ClientHarness(object):
       'MAX_QUEUE_SIZE': self.max_q, 'MAX_DATAPOINTS_PER_MESSAGE': self.per_msg,
       'QUEUE_LOW_WATERMARK_PCT': self.low_pct, 'MAX_QUEUE_SIZE_HARD_PCT': self.hard_pct,
       'USE_FLOW_CONTROL': self.flow, 'TIME_TO_DEFER_SENDING': ctx.fresh(R, 'TIME_TO_DEFER_SENDING'),
-      'USE_RATIO_RESET': False, 'DESTINATION_POOL_REPLICAS': False,
+      'USE_RATIO_RESET': ctx.fresh(B, 'USE_RATIO_RESET'), 'DESTINATION_POOL_REPLICAS': False,
+      'MIN_RESET_INTERVAL': ctx.fresh(R, 'MIN_RESET_INTERVAL'), 'MIN_RESET_STAT_FLOW': ctx.fresh(R, 'MIN_RESET_STAT_FLOW'),
+      'MIN_RESET_RATIO': ctx.fresh(R, 'MIN_RESET_RATIO'),
       'DYNAMIC_ROUTER': self.dyn_router, 'DYNAMIC_ROUTER_MAX_RETRIES': self.max_retries,
       'TCP_KEEPALIVE': False,
     }, item_access=True)
@@ -214,7 +216,14 @@ class ClientHarness(object):
     self.ip = Interp(ctx, index, bindings=self.bindings)
     self.ip.label_prefix = prefix
     self.ip.ext['str_format'] = lambda ip2, fmt, args: ('fmt', fmt, tuple(args))
+    # connection-quality resets (USE_RATIO_RESET): at call sites the verdict of the monitor is an
+    # arbitrary boolean (contract verified by unit client.connectionQualityMonitor: pure query)
+    self.ip.specs[PROTO + '.connectionQualityMonitor'] = Spec(
+      PROTO + '.connectionQualityMonitor', lambda ip2, args, kwargs: ctx.fresh(B, 'quality_is_good'))
     self.ip.ext[('gen_out', FACTORY + '.takeSomeFromQueue.yield_max_datapoints')] = lambda ip2: SymSeq.empty(TItem, 'batch')
+
+  def no_monitor_spec(self):
+    self.ip.specs.pop(PROTO + '.connectionQualityMonitor', None)
 
   def bm(self, name):
     return BoundMethod(self.factory, RepoFunc(self.index.func(FACTORY + '.' + name)))
